@@ -557,6 +557,35 @@ def ep_tucker_regressor(E, cfg):
     return call
 
 
+def refit_cp_regressor(E, cfg):
+    from tensorly.regression.cp_regression import CPRegressor
+
+    X = E.real("X", (2, 2, 2))
+    y = E.real("y", (2,))
+
+    def fit(m):
+        m.fit(X, y)
+        return [m.weight_tensor_, m.vec_W_]
+
+    return (lambda rs: CPRegressor(weight_rank=1, tol=0, reg_W=1, n_iter_max=1, random_state=rs, verbose=0)), fit
+
+
+def refit_tucker_regressor(E, cfg):
+    from tensorly.regression.tucker_regression import TuckerRegressor
+
+    X = E.real("X", (2, 2, 2))
+    y = E.real("y", (2,))
+
+    def fit(m):
+        m.fit(X, y)
+        return [m.weight_tensor_, m.vec_W_]
+
+    return (lambda rs: TuckerRegressor(weight_ranks=[1, 1], tol=0, reg_W=1, n_iter_max=1, random_state=rs, verbose=0)), fit
+
+
+REFIT = {"CPRegressor": refit_cp_regressor, "TuckerRegressor": refit_tucker_regressor}
+
+
 # class wrappers (thin: they forward random_state) -- one representative
 def ep_class_CP(E, cfg):
     from tensorly.decomposition import CP
@@ -762,6 +791,8 @@ def configs(tier):
     add("svd_interface_randomized")
     add("CPRegressor")
     add("TuckerRegressor")
+    add("CPRegressor", "refit", one, kind="refit")
+    add("TuckerRegressor", "refit", one, kind="refit")
     add("class_CP", "random", one)
     if not q:
         # (tucker / randomised_parafac with two sweeps: > 4000 paths from svd_flip / integer draws -- not in the bound)
@@ -827,6 +858,18 @@ def _harness(E, cfg):
         E.prove("repeat/same_result_third_call", same(E, o1, o3))
         return
     seed = cfg["seed"]
+    if cfg["kind"] == "refit":
+        # ONE estimator object built with an integer seed and fitted twice: both fits are 'calls with the same integer seed'
+        make, fit = REFIT[cfg["ep"]](E, cfg)
+        if not E.symbolic:
+            np.random.seed(1234)
+        est = make(seed)
+        s0 = G.snapshot()
+        o1 = flat(fit(est))
+        G.perturb()
+        o2 = flat(fit(est))
+        E.prove("int_seed/same_estimator_refitted/same_result", same(E, o1, o2))
+        return
     call = SEEDED[cfg["ep"]](E, cfg)
     if not E.symbolic:
         np.random.seed(1234)
